@@ -72,7 +72,8 @@ fn random_program(args: &Args, k: usize, prng: &mut Rng, mode: SchedMode) -> (Pr
     let pf = props::profile_for(&args.prop, args.cancelable, prng);
     let prog = if (args.prop == "C18" && k % 100 == 50) || (args.prop == "C17" && k % 500 == 250) {
         templates::long_local_program(args.cancelable, prng)
-    } else if args.prop == "C09" {
+    } else if args.prop == "C09" || (args.prop == "C08" && k % 12 == 11) {
+        // C08: what the collector retains is also judged after queue-full episodes
         Gen::new(prng, &pf, k as u64).generate_overload()
     } else {
         Gen::new(prng, &pf, k as u64).generate()
